@@ -14,7 +14,7 @@ from fsic.extensions import TracerMixin
 
 from .. import refsolve, scripted
 from ..core.observe import canon
-from ..core.runner import Acc, guard, CaseTimeout
+from ..core.runner import Acc, guard, CaseTimeout, robust
 from . import c02, c06
 
 ID = 'C17'
@@ -68,7 +68,7 @@ def same(a, b):
 
 
 def build(cls, opts, hist):
-    m = scripted.make_scripted(list(range(3)), {1: [(o, 0) for o in hist]}, opts['preHook'] == 'exc', opts['postHook'] == 'exc', cls=cls)
+    m = scripted.make_scripted(list(range(3)), {1: [(o, 0) for o in hist]}, opts['preHook'] == 'exc', opts['postHook'] == 'exc', cls=cls, hooks_write=True)
     m.A = [1.0, 2.0, 3.0]
     m.B = [-1.0, -2.0, -3.0]
     m.X = [7.0, 8.0, 9.0]
@@ -112,6 +112,7 @@ def expected_labels(exp, opts, hist):
     return [seq]
 
 
+@robust(1, True)
 def run_case(case):
     opts, hist, arg, entry = case['opts'], case['hist'], case['trace'], case['entry']
     hist_full = hist + ['moved'] * 8
@@ -130,6 +131,14 @@ def run_case(case):
         out.append(('differential:state', 'equal values/status/iterations', 'differ', 'tracing changed the stored solution'))
     if not all(tr.is_empty() and tr.index == [] for tr in untraced.trace):
         out.append(('untraced:trace-written', 'all traces empty', [list(tr.index) for tr in untraced.trace], 'a trace was written with tracing off'))
+    if case.get('off_variants'):
+        for off in (None, False):
+            tw = build(TScripted, opts, hist)
+            roff = call(tw, entry, dict(kw, trace=off))
+            if roff != rp or model_state(tw) != model_state(plain):
+                out.append(('differential:trace=%r' % off, {'plain': rp}, {'trace=%r' % off: roff}, 'an explicit trace=%r changed the solution' % off))
+            if not all(tr.is_empty() and tr.index == [] for tr in tw.trace):
+                out.append(('untraced:trace-written:trace=%r' % off, 'all traces empty', [list(tr.index) for tr in tw.trace], 'a trace was written with trace=%r' % off))
     if not all(tr.is_empty() for i, tr in enumerate(traced.trace) if i != 1):
         out.append(('traced:other-period', 'only period 1 traced', [list(tr.index) for tr in traced.trace], 'trace written for another period'))
     tr = traced.trace[1]
@@ -147,10 +156,18 @@ def run_case(case):
             idx = [['A', 'B', 'C', 'X'].index(n) for n in names]
             log = [e for e in traced.sc_log() if e[0] == 'eval']
             final = values_of(traced, names, 1)
+            after_pre = list(init)
+            after_pre[2] += 1000.0  # the scripted pre-solution hook adds 1000 to C
+            post_ran = traced.sc_count('post') > 0
+            before_post = values_of(traced, ['A', 'B', 'C', 'X'], 1)
+            if post_ran:
+                before_post[2] -= 5000.0  # ... and the post-solution hook adds 5000
             for col, lab in enumerate(labels):
                 got = tr.values[:, col].tolist()
-                if lab in ('start', 'before', 0):
+                if lab in ('start', 'before'):
                     want = [init[i] for i in idx]
+                elif lab == 0:
+                    want = [after_pre[i] for i in idx]
                 elif lab == 'end':
                     want = final
                 else:
@@ -158,7 +175,7 @@ def run_case(case):
                     if j < len(log):
                         want = [log[j][3][i] for i in idx]  # entry values of pass j+1 == values after pass j
                     else:
-                        want = final
+                        want = [before_post[i] for i in idx]
                 if want is not None and not same(got, want):
                     out.append(('snapshot:%s' % (lab if isinstance(lab, str) else 'pass'), want, got,
                                 'snapshot %r does not hold the traced values after that step' % (lab,)))
@@ -191,7 +208,8 @@ def run_traces(block, tier, acc):
             for entry in ('solve_t', 'solve_period', 'solve'):
                 if tier == 'quick' and ai >= 1 and entry != 'solve_t':
                     continue
-                case = {'kind': 'trace', 'opts': opts, 'hist': hist, 'trace': arg, 'entry': entry, 'again': ai == 0 or tier == 'thorough'}
+                case = {'kind': 'trace', 'opts': opts, 'hist': hist, 'trace': arg, 'entry': entry, 'again': ai == 0 or tier == 'thorough',
+                        'off_variants': ai == 0}
                 acc.evaluations += 1
                 try:
                     with guard(5):
@@ -226,6 +244,7 @@ def fill(m, dv):
     return m
 
 
+@robust()
 def run_cat_case(case):
     i, dv, max_iter, arg = case['i'], case['dv'], case['max_iter'], case['trace']
     kw = dict(max_iter=max_iter, tol=case['tol'], failures='ignore', offset=case['offset'])
